@@ -4,8 +4,12 @@ A case is a program of scripted handlers on one root component plus a top-level 
 
   {'h':   [[kind, [body, ...]], ...]      kind: 0 started, 1 stopped, 3 exception, 10+n user event e<n>;
                                           bodies in priority order (10, 9, ...)
-   'ext': [['n'] | ['f', n] | ['s', code, late]]  what a second thread does, one entry per idle wait of the loop;
-                                          late=1: the stopping thread is pre-empted right after its fire(stopped)
+   'ext': [['n'] | ['f', n] | ['s', code, mode]]  what a second thread does, one entry per idle wait of the loop;
+                                          mode=2 (early): the stopping thread is parked on entry of its
+                                          fire(stopped), i.e. after `_running = False; _exit_code = code`, until
+                                          run() has returned -- only when the loop sits in the *timed* idle wait
+                                          (in the unbounded wait the loop cannot move, the entry is then joined);
+                                          mode=1 (late): the stopping thread is pre-empted right after its fire(stopped)
                                           returned (the loop is awake by then) and executes the rest of stop() only
                                           after run() has returned in the checking thread (controlled pre-emption:
                                           a wrapper around manager.fire parks exactly that thread; bounded waits are
@@ -21,7 +25,7 @@ Observable = the flat log (same alphabet as Model/KLoop.tr without the ghost TFi
   [1,k] dispatch of k | [2,k,i] plain handler | [3,k,i,g] generator created | [4,g,j] generator step |
   [5,code] stop request | [6,code] SystemExit in the second thread | [7,inf] idle wait | [8] tick |
   [9,None|[[code]]] run()/stop() returned / raised SystemExit | [10,n] len(manager) |
-  [11] the stopping second thread is parked after fire(stopped)
+  [11] the stopping second thread is parked after fire(stopped) | [12] ... before fire(stopped)
 run() executes in the checking thread; circuits.core.helpers.Event is replaced by a wait double that never
 blocks: every wait is the deterministic point at which the second thread performs the next 'ext' entry.
 """
@@ -197,15 +201,24 @@ class Driver:
         orig_fire = app.fire
 
         def fire(event, *channels, **kw):
-            r = orig_fire(event, *channels, **kw)
             L = drv.late
-            if (L is not None and not L['parked'] and threading.current_thread() is L['thread']
-                    and getattr(event, 'name', None) == 'stopped'):
-                # the pre-emption point: fire(stopped) has returned inside stop(), the loop has been woken
+            mine = (L is not None and not L['parked'] and threading.current_thread() is L['thread']
+                    and getattr(event, 'name', None) == 'stopped')
+            if mine and L['early']:
+                # pre-emption point 'early': inside stop(), both writes done, `stopped` not yet queued
+                L['parked'] = True
+                log.append([12])
+                L['evt'].set()
+                if not L['release'].wait(30):      # liveness guard, never the mechanism
+                    L['timed_out'] = True
+                return orig_fire(event, *channels, **kw)
+            r = orig_fire(event, *channels, **kw)
+            if mine:
+                # pre-emption point 'late': fire(stopped) has returned inside stop(), the loop has been woken
                 L['parked'] = True
                 log.append([11])
                 L['evt'].set()
-                if not L['release'].wait(30):      # liveness guard, never the mechanism
+                if not L['release'].wait(30):
                     L['timed_out'] = True
             return r
         app.fire = fire
@@ -234,7 +247,7 @@ class Driver:
         else:
             self.app.stop(code)
 
-    def late_stop(self, code):
+    def late_stop(self, code, early=False):
         """stop(code) by a second thread that loses the race: parked after fire(stopped), released after run()"""
         if self.runaway:
             return
@@ -252,7 +265,7 @@ class Driver:
             finally:
                 evt.set()
         t = threading.Thread(target=target)
-        self.late = {'thread': t, 'evt': evt, 'release': threading.Event(), 'box': box, 'parked': False,
+        self.late = {'thread': t, 'evt': evt, 'release': threading.Event(), 'box': box, 'parked': False, 'early': early,
                      'timed_out': False}
         t.start()
         if not evt.wait(30):
@@ -306,8 +319,10 @@ class Driver:
                 ev = self.new_event(x[1])
                 in_thread(lambda: self.app.fire(ev))
             elif x[0] == 's':
-                if len(x) > 2 and x[2]:
+                if len(x) > 2 and x[2] == 1:
                     self.late_stop(x[1])
+                elif len(x) > 2 and x[2] == 2 and not inf:
+                    self.late_stop(x[1], early=True)
                 else:
                     self.do_stop(1, x[1])
         elif inf:
@@ -344,6 +359,7 @@ class Driver:
                     info['runaway'] = True
                 else:
                     log.append([9, out])
+                info['ret'] = len(log)
                 info['qlen'] = len(app)
                 info['undispatched'] = sorted(s for s in self.fired if s not in self.dispatched)
                 info['still_running'] = bool(app.running)
@@ -458,7 +474,8 @@ def c_op(o):
 
 def c_x(x):
     return {'n': 'XNop'}.get(x[0]) or ('XFire %d%%nat' % x[1] if x[0] == 'f' else
-                                       'XStop %s %s' % (c_bool(len(x) > 2 and x[2]), c_code(x[1])))
+                                       'XStop %s %s' % (['PJoin', 'PLate', 'PEarly'][x[2] if len(x) > 2 else 0],
+                                                        c_code(x[1])))
 
 
 # ----------------------------------------------------------------------------- generator
@@ -559,7 +576,7 @@ class Gen:
         elif place == 'stopped':
             b = some_body([1], 'p')
             b['a'].insert(0, ['s', 0, code])        # stop() inside the stopped handler: not running any more
-            ext.append(['s', r.choice(CODES), int(r.random() < 0.4)])
+            ext.append(['s', r.choice(CODES), r.choice([0, 0, 0, 1, 1, 2])])
         # make sure the chain is reachable: started fires something
         if h[0] and r.random() < 0.8:
             b0 = h[0][0]
@@ -575,7 +592,7 @@ class Gen:
             if r.random() < 0.4:
                 ops.append(['stop', r.choice(CODES)])
             ops += [['run'], ['len']]
-            ext += [r.choice([['n'], ['f', r.randint(0, NUSER - 1)], ['s', r.choice(CODES), int(r.random() < 0.5)]])
+            ext += [r.choice([['n'], ['f', r.randint(0, NUSER - 1)], ['s', r.choice(CODES), r.choice([0, 0, 1, 1, 2])]])
                     for _ in range(r.randint(0, 2))]
         if r.random() < 0.3:
             ops.append(['stop', r.choice(CODES)])
@@ -614,6 +631,31 @@ class Gen:
         ops += [['flush'], ['len']]
         return {'h': sorted([k, v] for k, v in h.items() if v), 'ext': [], 'ops': ops, 'place': 'late-chain'}
 
+    def early_stop(self):
+        """a second thread's stop while the loop sits in the timed idle wait (a generator task is pending and the
+        queue is empty), pre-empted before its fire(stopped) (mode 2), after it (1) or not at all (0)"""
+        r = self.rng
+        h = {0: [{'t': 'p', 'a': [['f', 0, 0]], 'r': ['r']}]}
+        quiet = r.randint(2, 4)                 # steps without fires: the loop idles with the task pending
+        steps = [[[], ['y']] for _ in range(quiet)]
+        for _ in range(r.randint(0, 6)):
+            steps.append([[['f', 0, 1]] if r.random() < 0.5 else [], ['y']])
+        h[10] = [{'t': 'g', 's': steps}]
+        if r.random() < 0.6:
+            h[11] = [self.body(2, p_exc=0.1)]
+        if r.random() < 0.5:
+            h[1] = [self.body(1, p_exc=0.1)]
+        mode = r.choice([2, 2, 2, 1, 0])
+        ext = [['n'] for _ in range(r.randint(0, quiet - 2))] + [['s', r.choice(CODES), mode]]
+        cycles = r.choice([1, 1, 2])
+        ops = []
+        for i in range(cycles):
+            ops += [['run'], ['len']]
+            if i:
+                ext += [['s', r.choice(CODES), r.choice([0, 1, 2])]]
+        ops += [['flush'], ['len']]
+        return {'h': sorted([k, v] for k, v in h.items() if v), 'ext': ext, 'ops': ops, 'place': 'early-stop'}
+
     def manual(self):
         """the application-specific main loop: running without run(); stop() ticks inline"""
         r = self.rng
@@ -632,12 +674,12 @@ class C08(Prop):
     id = 'C08'
     props_file = 'Props/C08.v'
     imports = ['Model.KLoop', 'Model.KLoopObs']
-    quick_n = 300
+    quick_n = 260
     thorough_n = 12000
     rule = ('random programs of scripted plain/generator handlers on started, stopped, exception and 5 user events '
             '(acyclic firing), with one deliberately placed stop site (started / mid-chain / generator step / second '
             'thread inside a handler / second thread while the loop idles, joined or pre-empted right after its '
-            'fire(stopped) until run() has returned / SystemExit / KeyboardInterrupt / inside the '
+            'fire(stopped) until run() has returned, or (6 % early-stop cases, timed idle wait) right before it / SystemExit / KeyboardInterrupt / inside the '
             'stopped handler / none; 10 % late-chain cases: a generator outliving stop() that starts event chains of '
             'length 2-4 in every fade-out tick) and exit codes None,0,1,3,7,9; 1-3 run() cycles with stop() on the idle manager '
             'in between; plus the manual main loop (stop() with inline ticks). non-trivial = a run() that dispatched '
@@ -645,8 +687,9 @@ class C08(Prop):
     trusted_base = ['hand-written model Model/KLoop.v tied to /repo by this correspondence run (full log incl. ticks, '
                     'idle waits, generate_events dispatches)',
                     'python oracle in harness/c08.py; wait double for circuits.core.helpers.Event; second thread joined '
-                    'at handler actions and idle waits; one controlled pre-emption point: the stopping second thread '
-                    'parked after fire(stopped) until run() returned (other pre-emption points are not explored)']
+                    'at handler actions and idle waits; two controlled pre-emption points of the stopping second thread: '
+                    'parked on entry of / after return from its fire(stopped) until run() returned (other points are '
+                    'not explored)']
     assumptions = ['iteration order of the task set is recorded from the implementation run and given to the model as '
                    'schedule; theorems hold for every schedule',
                    'exit codes are ints or None; handlers live on the root component; priorities all 0']
@@ -659,7 +702,7 @@ class C08(Prop):
         out = []
         for i in range(n):
             x = rng.random()
-            c = g.manual() if x < 0.08 else g.late_chain() if x < 0.18 else g.case()
+            c = g.manual() if x < 0.08 else g.late_chain() if x < 0.18 else g.early_stop() if x < 0.24 else g.case()
             out.append(c)
             self.stats['place'][c['place']] = self.stats['place'].get(c['place'], 0) + 1
             self.stats['runs'] += sum(1 for o in c['ops'] if o[0] == 'run')
@@ -695,55 +738,85 @@ class C08(Prop):
         return obs['log']
 
     # ---- the property, read directly on the log of the real code
-    def oracle(self, case, obs):
-        if isinstance(obs, dict) and '__crash__' in obs:
-            return None
+    def complaints(self, case, obs):
+        """every way in which the run of the real code violates the property: list of (op index, text)"""
+        out_ = []
         log = obs['log']
-        for m in obs['marks']:
-            sl = log[m['start']:m['end']]
+        for idx, m in enumerate(obs['marks']):
+            def bad(t):
+                out_.append((idx, t))
             if m['op'] == 'run':
                 if m.get('runaway') or obs['runaway']:
-                    return 'run() does not return although stop was requested (more than %d ticks)' % MAXTICKS
+                    bad('run() does not return although stop was requested (more than %d ticks)' % MAXTICKS)
+                    continue
                 if m.get('was_running'):
                     continue        # manual mode left running: outside the property
+                sl = log[m['start']:m.get('ret', m['end'])]      # what happened until run() returned / raised
                 n_started = sum(1 for e in sl if e[:2] == [1, 0])
                 n_stopped = sum(1 for e in sl if e[:2] == [1, 1])
                 if n_started != 1:
-                    return 'started dispatched %d times during one run()' % n_started
+                    bad('started dispatched %d times during one run()' % n_started)
                 if n_stopped != 1:
-                    return 'stopped dispatched %d times during one run()' % n_stopped
+                    bad('stopped dispatched %d times before run() returned' % n_stopped)
                 if m['still_running']:
-                    return 'manager still running after run() returned'
+                    bad('manager still running after run() returned')
                 if m['qlen'] != 0:
-                    return 'run() returned with %d event(s) still queued' % m['qlen']
+                    bad('run() returned with %d event(s) still queued' % m['qlen'])
                 if m['undispatched']:
-                    return 'run() returned before dispatching %d event(s) fired during the run' % len(m['undispatched'])
+                    bad('run() returned before dispatching %d event(s) fired during the run' % len(m['undispatched']))
                 reqs = [e[1] for e in sl if e[0] == 5]
                 if not reqs:
-                    return 'run() returned although nobody requested a stop'
+                    bad('run() returned although nobody requested a stop')
+                    continue
                 out = [e for e in sl if e[0] == 9]
                 want = None if reqs[0] is None else [reqs[0]]
                 if not out or out[-1][1] != want:
-                    return 'exit code: first stop request carried %r, run() gave %r' % (
-                        reqs[0], out[-1][1] if out else 'nothing')
-                i_stop = max(i for i, e in enumerate(sl) if e[:2] == [1, 1])
+                    bad('exit code: first stop request carried %r, run() gave %r' % (
+                        reqs[0], out[-1][1] if out else 'nothing'))
+                stops = [i for i, e in enumerate(sl) if e[:2] == [1, 1]]
                 i_req = min(i for i, e in enumerate(sl) if e[0] == 5)
-                if i_stop < i_req:
-                    return 'stopped dispatched before any stop request'
+                if stops and max(stops) < i_req:
+                    bad('stopped dispatched before any stop request')
             elif m['op'] == 'stop' and not m['was_running']:
+                sl = log[m['start']:m['end']]
                 self.stats['idle_stops'] += 1
-                if sl != [[5, None if case_code(m, case, obs) is None else [case_code(m, case, obs)]], [9, None]]:
-                    return 'stop() on a manager that is not running had an effect: %r' % (sl,)
+                c = case['ops'][idx][1]
+                if sl != [[5, None if c is None else [c]], [9, None]]:
+                    bad('stop() on a manager that is not running had an effect: %r' % (sl,))
                 if m['qlen'] != m['qlen_before']:
-                    return 'stop() on a manager that is not running changed the queue'
+                    bad('stop() on a manager that is not running changed the queue')
             elif m['op'] == 'stop':
+                sl = log[m['start']:m['end']]
                 # manual main loop: stopped dispatched once by the inline ticks, code raised to the caller
                 if sum(1 for e in sl if e[:2] == [1, 1]) != 1:
-                    return 'stop() of a running manager without run(): stopped not dispatched exactly once'
-        return None
+                    bad('stop() of a running manager without run(): stopped not dispatched exactly once')
+        return out_
+
+    # ---- the property, read directly on the log of the real code
+    def oracle(self, case, obs):
+        if isinstance(obs, dict) and '__crash__' in obs:
+            return None
+        cs = self.complaints(case, obs)
+        return ' | '.join('op %d: %s' % c for c in cs) if cs else None
 
     def finding_class(self, case, obs, what):
-        return None
+        """C08-early-return-race: every complaint is "stopped dispatched 0 times before run() returned" about a
+        run() during which a stopping second thread was parked before its fire(stopped) ([12] in that run's
+        log) -- anything else in such a case, or that complaint without the early-parked stop, is new"""
+        if not isinstance(obs, dict) or 'log' not in obs:
+            return None
+        cs = self.complaints(case, obs)
+        if not cs:
+            return None
+        for idx, text in cs:
+            m = obs['marks'][idx]
+            if m['op'] != 'run' or text != 'stopped dispatched 0 times before run() returned':
+                return None
+            if [12] not in obs['log'][m['start']:m.get('ret', m['end'])]:
+                return None
+            if not any(x[0] == 's' and len(x) > 2 and x[2] == 2 for x in case.get('ext', [])):
+                return None
+        return 'C08-early-return-race'
 
     def nontrivial(self, case, obs):
         if not isinstance(obs, dict) or 'log' not in obs:
@@ -756,13 +829,7 @@ class C08(Prop):
 
     def search(self, rng, tier):
         g = Gen(rng)
-        return [g.late_chain() if i % 4 == 0 else g.case() for i in range(1500)]
-
-
-def case_code(m, case, obs):
-    """code of the top-level stop op that mark m belongs to"""
-    idx = obs['marks'].index(m)
-    return case['ops'][idx][1]
+        return [g.late_chain() if i % 4 == 0 else g.early_stop() if i % 4 == 1 else g.case() for i in range(1500)]
 
 
 if __name__ == '__main__':
